@@ -26,7 +26,7 @@ ASSUMPTIONS = ["exact class: both sides piecewise linear => compared on the unio
                "(the representation's own contract); scalars are python int/float",
                "snap_pl outside the source grid's span is only judged where the source's edge value is 0 (statement does not say "
                "how a non-zero edge extends)"]
-REQUIRED_NOTES = ["long-operand-cases"]
+REQUIRED_NOTES = ["long-operand-cases", "far-offset-cases"]
 TECHNIQUE = "runtime monitoring: call-history recorder with deep snapshots of every operand, checked offline against a pointwise reference model"
 
 SCALARS = [0, 1, -1, 0.5, -0.5, 3, 1e-3, 1e3, 2, -2.5]
@@ -150,8 +150,24 @@ def new_exact_long(rng):
     return PLE(critical_pairs=cp, hom_deg=0)
 
 
+FAR = [0.0]        # per case: common offset of diagram-built exact operands (time stamps, elevations: values >> feature sizes)
+
+
+def slope_bound(cp):
+    m = 0.0
+    for dp in cp:
+        for (x0, y0), (x1, y1) in zip(dp, dp[1:]):
+            if x1 > x0:
+                m = max(m, abs(y1 - y0) / (x1 - x0))
+    return m
+
+
 def new_exact(rng):
     hom = int(rng.choice([0, 0, 0, 1]))
+    if FAR[0]:
+        bars, _ = gen_bars(rng)
+        bars = bars[:6] / max(float(np.max(np.abs(bars))), 1e-300) * float(rng.choice([2.0, 10.0, 50.0])) + FAR[0]
+        return PLE(dgms=[bars] * (hom + 1), hom_deg=hom, compute=bool(rng.random() < 0.67))
     if rng.random() < 0.5:
         bars, _ = gen_bars(rng)
         bars = bars[:6]
@@ -213,9 +229,16 @@ def run_case(ctx, k, rng):
     kind = "exact" if rng.random() < 0.5 else "grid"
     make = new_exact if kind == "exact" else new_grid
     long_case = k % 61 == 3
+    FAR[0] = 0.0
     if long_case:
         kind, make = "exact", new_exact_long
         ctx.note("long-operand-cases")
+    elif k % 17 == 2:
+        # exact operands whose filtration values are huge compared with their features (Unix time stamps with features of seconds,
+        # elevations in millimetres): float64 still resolves them; relative closeness tests on abscissae do not
+        kind, make = "exact", new_exact
+        FAR[0] = float(rng.choice([1e6, 1e8, 1.7e9, -2.5e9]))
+        ctx.note("far-offset-cases")
     pool = [make(rng) for _ in range(int(rng.integers(3, 6)))]
     snaps = [snapshot(P) for P in pool]
     steps = int(rng.integers(3, 13)) if not long_case else int(rng.integers(3, 6))
@@ -374,7 +397,10 @@ def run_case(ctx, k, rng):
             W = np.zeros((K, len(ts))); G = np.zeros((K, len(ts)))
             W[:len(want)] = want; G[:len(got)] = got
             err = np.abs(W - G)
-            okk = bool(np.all(err <= 1e-9 * mag))
+            xmax = max([abs(float(t)) for t in ts[2:-2]] + [0.0]) if len(ts) > 4 else 0.0
+            # (rounding of the abscissae themselves, eps*|x|, times the steepest slope involved)
+            xtol = 64 * np.finfo(float).eps * xmax * sum(abs(cc) * slope_bound(s["cp"]) for cc, s in zip(coeffs, ss)) if FAR[0] else 0.0
+            okk = bool(np.all(err <= 1e-9 * mag + xtol))
             wi = np.unravel_index(int(np.argmax(err)), err.shape) if err.size else (0, 0)
             ctx.check("exact: result == pointwise combination (complete PL comparison)", okk, step=stepno, op=op,
                       depth=int(wi[0]) + 1, t=float(ts[wi[1]]) if err.size else None,
